@@ -262,6 +262,27 @@ std::string keyStem(const std::string& k)
 }
 // transient operating flags that the library resets on every use are not "defining parameters"
 // (ANeigh::reset() clears the cross-validation flag at the start of every KrigingSystem)
+// bit-exact equality of two descriptions ("" or the first differing key)
+std::string descExact(const Desc& a, const Desc& b)
+{
+  if (a.e.size() != b.e.size()) return "entry count " + std::to_string(a.e.size()) + " vs " + std::to_string(b.e.size());
+  for (size_t i = 0; i < a.e.size(); i++)
+  {
+    const auto& x = a.e[i];
+    const auto& y = b.e[i];
+    if (x.key != y.key || x.kind != y.kind) return x.key + ": key/kind differs";
+    bool same = x.kind == 0 ? x.i == y.i : x.kind == 2 ? x.s == y.s : (sameBits(x.d, y.d) || (isUndef(x.d) && isUndef(y.d)));
+    if (!same)
+    {
+      char b2[200];
+      if (x.kind == 1) snprintf(b2, sizeof b2, "%s: %.17g vs %.17g", x.key.c_str(), x.d, y.d);
+      else if (x.kind == 0) snprintf(b2, sizeof b2, "%s: %ld vs %ld", x.key.c_str(), x.i, y.i);
+      else snprintf(b2, sizeof b2, "%s: '%s' vs '%s'", x.key.c_str(), x.s.substr(0, 40).c_str(), y.s.substr(0, 40).c_str());
+      return b2;
+    }
+  }
+  return "";
+}
 void neutraliseTransient(ASerializable* o)
 {
   if (auto* n = dynamic_cast<ANeigh*>(o)) n->setFlagXvalid(false);
@@ -820,14 +841,79 @@ void execRoundTrip(const Plan& p, Ctx& c)
     Desc d1, p1;
     m.ad->describe(cur.get(), d1);
     dropTransient(d1);
-    std::string df = descDiff(d0, d1, 5e-15 * rounds);
-    if (!df.empty()) { c.violation(P + "describe-differs|" + cn + "|" + keyStem(firstWord(df)), df); return; }
+    // every differing parameter is reported (one signature per key stem), so that a recorded finding on one
+    // field of a class does not hide a new difference on another field
+    bool anyDiff = false;
+    std::set<std::string> seenStems;
+    for (int guard = 0; guard < 12; guard++)
+    {
+      std::string df = descDiff(d0, d1, 5e-15 * rounds);
+      if (df.empty()) break;
+      anyDiff = true;
+      std::string key = firstWord(df);
+      std::string stem = keyStem(key);
+      if (key == "entry") { c.violation(P + "describe-differs|" + cn + "|structure", df); break; }
+      if (seenStems.insert(stem).second) c.violation(P + "describe-differs|" + cn + "|" + stem, df);
+      // drop every entry of that stem on both sides and look again
+      auto base = [](const std::string& k) { size_t p = k.find_first_of("[."); return p == std::string::npos ? k : k.substr(0, p); };
+      std::string b0 = base(stem);
+      auto strip = [&](Desc& d) {
+        std::vector<Desc::Entry> keep;
+        for (auto& e : d.e) if (base(keyStem(e.key)) != b0) keep.push_back(e);
+        bool changed = keep.size() != d.e.size();
+        d.e = keep;
+        return changed;
+      };
+      bool c0 = strip(d0), c1 = strip(d1);
+      if (!c0 && !c1) break; // structural difference (sizes): stop
+    }
+    if (anyDiff) return;
     std::string bad = m.ad->consistent(cur.get());
     if (!bad.empty()) { c.violation(P + "reloaded-inconsistent|" + cn + "|" + firstWord(bad), bad); return; }
     neutraliseTransient(cur.get());
     m.ad->probe(cur.get(), p1);
-    df = descDiff(p0, p1, 1e-12 * rounds, 1e-300);
-    if (!df.empty()) { c.violation(P + "probe-differs|" + cn + "|" + keyStem(firstWord(df)), df); return; }
+    {
+      // query answers: a parameter rounded at its 15th digit may move a computed value by more than 1e-15 and may flip a
+      // discrete answer (a rank, a side of a fault): doubles are compared to 1e-9, discrete answers only when every
+      // parameter came back bit-identical; the strict comparison is made between generations 1 and 2 below
+      Desc e0, e1;
+      m.ad->describe(m.obj.get(), e0);
+      m.ad->describe(cur.get(), e1);
+      bool exactParams = descExact(e0, e1).empty();
+      Desc q0 = p0, q1 = p1;
+      if (!exactParams)
+      {
+        auto onlyDoubles = [](Desc& d) { std::vector<Desc::Entry> k; for (auto& e : d.e) if (e.kind == 1) k.push_back(e); d.e = k; };
+        bool sameShape = q0.e.size() == q1.e.size();
+        for (size_t i = 0; sameShape && i < q0.e.size(); i++) sameShape = q0.e[i].key == q1.e[i].key && q0.e[i].kind == q1.e[i].kind;
+        if (sameShape) { onlyDoubles(q0); onlyDoubles(q1); c.count("skipped.discrete-probe-after-rounding"); }
+        else { q0.e.clear(); q1.e.clear(); c.count("skipped.probe-shape-after-rounding"); }
+      }
+      std::string df = descDiff(q0, q1, 1e-9 * rounds, 1e-300);
+      if (!df.empty()) { c.violation(P + "probe-differs|" + cn + "|" + keyStem(firstWord(df)), df); return; }
+    }
+    {
+      // generation 1 -> generation 2: every value of generation 1 is a 15-digit decimal, so the second reload must give
+      // back bit-identical parameters and identical answers, discrete ones included
+      std::string bytesG;
+      std::vector<std::pair<size_t, size_t>> evG;
+      writeObject(cur.get(), 4096, bytesG, evG);
+      LoadOutcome l2 = loadImage(*m.ad, bytesG, 0, 4096, -1, "");
+      if (l2.cls != "object") { c.violation(P + "load-failed|" + cn + "|second-generation", "the file written from a reloaded object is refused"); return; }
+      Desc g1, g2, pg1, pg2;
+      m.ad->describe(cur.get(), g1);
+      m.ad->describe(l2.obj.get(), g2);
+      dropTransient(g1);
+      dropTransient(g2);
+      std::string dg = descExact(g1, g2);
+      if (!dg.empty()) { c.violation(P + "generation2-differs|" + cn + "|" + keyStem(firstWord(dg)), dg); return; }
+      neutraliseTransient(l2.obj.get());
+      m.ad->probe(cur.get(), pg1);
+      m.ad->probe(l2.obj.get(), pg2);
+      dg = descExact(pg1, pg2);
+      if (!dg.empty()) { c.violation(P + "generation2-probe-differs|" + cn + "|" + keyStem(firstWord(dg)), dg); return; }
+      c.count("probe.generation2-identical");
+    }
     // writing it again reproduces the same file
     std::string bytes2;
     std::vector<std::pair<size_t, size_t>> ev;
